@@ -64,7 +64,7 @@ def term? : Sexp → Option Term
   | .list [.atom "raiseMulti", es, me] => do some (.raiseMulti (← list? exc? es) (← exc? me))
   | .list [.atom "assertFail", e, ds] => do some (.assertFail (← exc? e) (← nucs? ds))
   | .list [.atom "expectFailure", r, eo, x] => do some (.expectFailure (← nat? r) (← opt? exc? eo) (← exc? x))
-  | .list [.atom "fixtureFail", ds, e, se] => do some (.fixtureFail (← nucs? ds) (← exc? e) (← exc? se))
+  | .list [.atom "fixtureFail", ds, e, ces, se] => do some (.fixtureFail (← nucs? ds) (← exc? e) (← list? exc? ces) (← exc? se))
   | _ => none
 
 mutual
